@@ -456,7 +456,11 @@ kll_sketch<T, C, A> kll_sketch<T, C, A>::deserialize(std::istream& is, const Ser
 
   if (!is.good()) throw std::runtime_error("error reading from std::istream");
   const bool is_empty(flags_byte & (1 << flags::IS_EMPTY));
-  if (is_empty) return kll_sketch(k, comparator, allocator);
+  if (is_empty) {
+    kll_sketch sketch(k, comparator, allocator);
+    sketch.is_level_zero_sorted_ = (flags_byte & (1 << flags::IS_LEVEL_ZERO_SORTED)) > 0;
+    return sketch;
+  }
 
   uint64_t n;
   uint16_t min_k;
@@ -539,7 +543,11 @@ kll_sketch<T, C, A> kll_sketch<T, C, A>::deserialize(const void* bytes, size_t s
   ensure_minimum_memory(size, preamble_ints * sizeof(uint32_t));
 
   const bool is_empty(flags_byte & (1 << flags::IS_EMPTY));
-  if (is_empty) return kll_sketch(k, comparator, allocator);
+  if (is_empty) {
+    kll_sketch sketch(k, comparator, allocator);
+    sketch.is_level_zero_sorted_ = (flags_byte & (1 << flags::IS_LEVEL_ZERO_SORTED)) > 0;
+    return sketch;
+  }
 
   uint64_t n;
   uint16_t min_k;
